@@ -41,5 +41,13 @@ Working rules (important):
 - When finished, remove your worktree:  git -C /repo worktree remove --force /tmp/wt_{pid}_{n}   (keep /tmp/seed_{pid}_{n}).
 - Your final message: a 5-10 line summary (file changed, nature of the change, trigger condition, test commands run).
 """
+if int(n) >= 2:
+    import glob
+    prev = []
+    for f in sorted(glob.glob(f'/verif/seeded/{pid}_*/meta.json')):
+        m = json.load(open(f))
+        prev += list(m.get('files_changed', []))
+    if prev:
+        txt += f"- Earlier exercises for this property already changed: {', '.join(sorted(set(prev)))}. Choose a DIFFERENT function and mechanism (preferably another package, curve or field, or another clause of the property statement).\n"
 open(f'/tmp/agent_prompt_{pid}_{n}.txt', 'w').write(txt)
 print(f'/tmp/agent_prompt_{pid}_{n}.txt')
